@@ -234,7 +234,8 @@ def _redecl_one(item):
 
 
 SLIPS = ["alias_signal", "alias_instance", "call_returns_same", "rename_signal", "rename_instance", "rename_to_implicit", "stale_slice",
-         "width_zero", "width_shrunk_under_slice", "ext_dup_ports", "alias_port", "alias_in_child", "same_name_below"]
+         "width_zero", "width_shrunk_under_slice", "ext_dup_ports", "alias_port", "alias_in_child", "same_name_below",
+         "rename_instance_like_signal", "rename_signal_like_instance", "rename_port_like_signal"]
 
 
 def _slip_one(kind):
@@ -269,6 +270,16 @@ def _slip_one(kind):
         elif kind == "rename_instance":
             m.i2 = inv(i=m.y, z=m.w)
             m.i2.name = "i1"
+        elif kind == "rename_instance_like_signal":
+            m.i2 = inv(i=m.y, z=m.w)
+            m.i2.name = "w"  # an instance carrying the name of a signal of the same module
+        elif kind == "rename_signal_like_instance":
+            m.w.name = "i1"
+            m.i2 = inv(i=m.y, z=m.w)
+        elif kind == "rename_port_like_signal":
+            m.pp = h.Port()
+            m.i2 = inv(i=m.y, z=m.pp)
+            m.pp.name = "w"  # a port and an internal signal of one name
         elif kind == "rename_to_implicit":
             m.w.name = "i1_z"  # the name the elaborator will pick for an implicit net
             m.i1.disconnect("z")
